@@ -2,9 +2,10 @@
 // For one property it generates cases from a single seeded PRNG, runs the real
 // library (built from /repo's working tree) on them, evaluates the property's
 // direct oracle on the implementation's behaviour, and writes
-//   <out>/cases_<k>.v   the cases together with the implementation's observables
-//                       as Coq terms, to be evaluated against the model by coqc
-//   <out>/result.json   counts, input distribution, samples, oracle failures
+//
+//	<out>/cases_<k>.v   the cases together with the implementation's observables
+//	                    as Coq terms, to be evaluated against the model by coqc
+//	<out>/result.json   counts, input distribution, samples, oracle failures
 package main
 
 import (
